@@ -354,6 +354,12 @@ class Summaries:
         def to_iter(ctx, a, mode='val'):
             if isinstance(a, IterV):
                 return a
+            if isinstance(a, EnumV) and a.ty.startswith('std::option::Option') and len(a.tags) == 1:
+                # `Some(x)` / `None` as an iterator of at most one element
+                p = a.payload.get(1)
+                items = (p.fields['0'],) if a.tags == {1} and p is not None and p.fields.get('0') is not None else ()
+                if a.tags == {0} or items:
+                    return IterV('known', ctx.ret_ty, (items, 0), iid=next(_c))
             if isinstance(a, StructV) and a.ty.startswith('std::ops::Range'):
                 return range_iter(ctx, a)
             if isinstance(a, RefV):
@@ -1300,7 +1306,7 @@ class Summaries:
                                         if isinstance(b_, NumV) and b_.key() == pv.key():
                                             a_, b_ = b_, a_
                                         if isinstance(a_, NumV) and a_.key() == pv.key() and isinstance(b_, NumV) and b_.sym is None:
-                                            return bool_fact(ctx, ('contains', c.key(), b_.key()))
+                                            return set_member(ctx, c, b_, path)
                         except Infeasible:
                             pass
                     key = ('any', c.key(), f.key(), tuple(o[0] for o in it.ops))
@@ -1892,6 +1898,8 @@ class Summaries:
                         return x if y.val else BoolV(None, ('not', x))
                     if x.val is not None:
                         return y if x.val else BoolV(None, ('not', y))
+                if isinstance(x, (StrV, CharV)) and isinstance(y, (StrV, CharV)):
+                    return self.streq(ctx, x, y)
                 if isinstance(x, StructV) and isinstance(y, StructV) and x.fields and set(x.fields) == set(y.fields):
                     # a derived PartialEq compares field by field
                     acc = BoolV(True)
@@ -2990,12 +2998,9 @@ class Summaries:
             carry_contains(ctx, c, nc, vv, False)
             return BoolV(None, ('fact', ('setremove', next(_c))))
 
-        @reg('std::collections::HashSet::<T, S, A>::contains')
-        def _(ctx):
-            r, vr = ctx.args
-            path, c = coll_at(ctx, r, 'set')
-            v = deref(ctx, vr)
-            log(ctx, 'set.contains', spath(path), v)
+        def set_member(ctx, c, v, path=None):
+            """is v a member of the set / list c?  exact on known contents; through the predicate of a
+            `retain` / `filter..collect` that produced c; otherwise one value-numbered fact per (version, value)"""
             if c.known is not None and _is_const(v) and all(_is_const(x) for x in c.known):
                 return BoolV(any(x.key() == v.key() for x in c.known))
             fl = ctx.st.vn.get(('filtered', c.cid))
@@ -3013,7 +3018,45 @@ class Summaries:
                     return BoolV(False)
                 if outs and all(o is True for o in outs):
                     return bool_fact(ctx, ('contains', srckey, v.key()))
-            return bool_fact(ctx, ('contains', c.key(), v.key() if isinstance(v, V) else None))
+            fk = ('contains', c.key(), v.key() if isinstance(v, V) else None)
+            if path is not None and isinstance(v, V):
+                ctx.st.vn[('contains-site', fk)] = (spath(path), v)
+                if ctx.st.vn.get(('fact', fk)) is True:
+                    ctx.st.log(('set.member', spath(path), v))
+            return bool_fact(ctx, fk)
+
+        @reg('std::collections::HashSet::<T, S, A>::take')
+        def _(ctx):
+            # like remove, but hands the element back
+            r, v = ctx.args
+            path, c = coll_at(ctx, r, 'set')
+            vv = deref(ctx, v)
+            rty = ctx.ret_ty
+            log(ctx, 'set.remove', spath(path), vv)
+            if c.known is not None and _is_const(vv) and all(_is_const(x) for x in c.known):
+                had = any(x.key() == vv.key() for x in c.known)
+                bump(ctx, path, c, known=tuple(x for x in c.known if x.key() != vv.key()), length=None)
+                return some(rty, vv) if had else none(rty)
+            was = ctx.st.vn.get(('fact', ('contains', c.key(), vv.key() if isinstance(vv, V) else None)))
+            nc = bump(ctx, path, c, known=None, length=None)
+            carry_contains(ctx, c, nc, vv, False)
+            if was is True:
+                return some(rty, vv)
+            if was is False:
+                return none(rty)
+            return opt_either(rty, vv)
+
+        @regx(r'^(std|core)::iter::once$')
+        def _(ctx):
+            return IterV('known', ctx.ret_ty, ((ctx.args[0],), 0), iid=next(_c))
+
+        @reg('std::collections::HashSet::<T, S, A>::contains')
+        def _(ctx):
+            r, vr = ctx.args
+            path, c = coll_at(ctx, r, 'set')
+            v = deref(ctx, vr)
+            log(ctx, 'set.contains', spath(path), v)
+            return set_member(ctx, c, v, path)
 
         @regx(r'^<std::collections::HashSet<T, S, A> as std::iter::Extend<(&\'a )?T>>::extend$')
         def _(ctx):
@@ -3027,11 +3070,19 @@ class Summaries:
                     desc = ('range', src.args[0], src.args[1], src.args[2], tuple(o[0] for o in src.ops), src.ops)
                 else:
                     desc = ('iter', src)
-            log(ctx, 'set.extend', spath(path), desc)
             known = None
             it = to_iter(ctx, src)
+            ex = exact_items(ctx, ctx.st, it) if isinstance(it, IterV) and it.kind != 'range' else None
+            if ex is not None and len(ex) == 1 and ex[0][0] is ctx.st and len(ex[0][1]) <= 8:
+                # a handful of exactly known elements (`extend(Some(y))`, `extend(once(y))`, a short
+                # constant list): the same as inserting them one by one
+                for x in ex[0][1]:
+                    log(ctx, 'set.insert', spath(path), deref(ctx, x))
+            else:
+                log(ctx, 'set.extend', spath(path), desc)
             if c.known is not None and isinstance(it, IterV) and all(_is_const(x) for x in c.known):
-                ex = exact_items(ctx, ctx.st, it)
+                if ex is None:
+                    ex = exact_items(ctx, ctx.st, it)
                 if ex is not None and len(ex) == 1 and ex[0][0] is ctx.st:
                     items = [deref(ctx, x) for x in ex[0][1]]
                     if all(_is_const(x) for x in items):
